@@ -33,9 +33,21 @@ def lattice(step, emin=-150, emax=150):
     return np.array(sorted(set(vals)))
 
 
+class LimiterRaised(Exception):
+    pass
+
+
 def limiter(name):
     import flowdyn.xnum as xnum
-    return getattr(xnum, name)
+    fn = getattr(xnum, name)
+
+    def guarded(a, b):
+        # a limiter is a total function on finite floats: an exception (e.g. from a dtype guessed from the first element) is an observation
+        try:
+            return fn(a, b)
+        except Exception as e:
+            raise LimiterRaised("%s raised %s: %s" % (name, type(e).__name__, str(e)[:200]))
+    return guarded
 
 
 def _reg(x):
@@ -119,8 +131,16 @@ def _pairs_block(k, nblk):
 
 
 def shard(arg):
-    name, mode = arg[0], arg[1]
     res = core.Res()
+    try:
+        return _shard(arg, res)
+    except LimiterRaised as e:
+        res.violation("C12/%s/raises" % arg[0], str(e), {"kind": "scalar", "limiter": arg[0]})
+        return res
+
+
+def _shard(arg, res):
+    name, mode = arg[0], arg[1]
     if mode == "full":
         a, b = _pairs_full(5)
     elif mode == "band":
@@ -150,8 +170,16 @@ def shard(arg):
 
 
 def shard_scalar(name):
-    """scalars behave like arrays (elementwise claim): python floats, numpy scalars, 2-D arrays"""
     res = core.Res()
+    try:
+        return _shard_scalar(name, res)
+    except LimiterRaised as e:
+        res.violation("C12/%s/raises" % name, str(e), {"kind": "scalar", "limiter": name})
+        return res
+
+
+def _shard_scalar(name, res):
+    """scalars behave like arrays (elementwise claim): python floats, numpy scalars, 2-D arrays"""
     f = limiter(name)
     v = lattice(30)
     A, B = np.meshgrid(v, v, indexing="ij")
@@ -161,6 +189,36 @@ def shard_scalar(name):
     if r2d.shape != A.shape or not np.array_equal(r2d, ref, equal_nan=True):
         res.violation("C12/%s/elementwise-2d" % name, "2-D array call differs from flattened call",
                       {"kind": "scalar", "limiter": name})
+    # memory layout must not matter: strided and reversed views, Fortran order, a scalar against an array (broadcasting)
+    a1, b1 = A.ravel(), B.ravel()
+    with np.errstate(all="ignore"):
+        big = np.zeros((2, a1.size * 2))
+        big[0, ::2], big[1, ::2] = a1, b1
+        r_str = np.asarray(f(big[0, ::2], big[1, ::2]), dtype=float)
+        r_rev = np.asarray(f(a1[::-1], b1[::-1]), dtype=float)[::-1]
+        r_for = np.asarray(f(np.asfortranarray(A), np.asfortranarray(B)), dtype=float)
+        r_bc = np.asarray(f(v[3], v), dtype=float)
+    flat = ref.ravel()
+    # the value for a pair must not depend on which pair comes first in the array: rotations that bring every sign class
+    # ((-,-),(+,+),(+,-),(-,+),(0,x),(x,0),(0,0)) and non-integer values to the front
+    n1 = a1.size
+    firsts = {}
+    for k in range(n1):
+        cls_ = (int(np.sign(a1[k])), int(np.sign(b1[k])), bool(a1[k] == b1[k]))
+        firsts.setdefault(cls_, k)
+    for cls_, k in sorted(firsts.items()):
+        with np.errstate(all="ignore"):
+            rr = np.asarray(f(np.roll(a1, -k), np.roll(b1, -k)))
+        back = np.roll(np.asarray(rr, dtype=float), k)
+        if rr.shape != a1.shape or not np.array_equal(back, flat, equal_nan=True):
+            bad = np.flatnonzero(~((back == flat) | (np.isnan(back) & np.isnan(flat)))) if rr.shape == a1.shape else [0]
+            j = int(bad[0])
+            res.violation("C12/%s/elementwise-order-dependent" % name, "%s: with the pair (%r,%r) (sign class %r) first in the array, the value for (%r,%r) is %r (dtype %s) instead of %r"
+                          % (name, a1[k], b1[k], cls_, a1[j], b1[j], back[j] if rr.shape == a1.shape else None, rr.dtype, flat[j]), {"kind": "scalar", "limiter": name})
+            break
+    for nm, got, want in (("strided-view", r_str, flat), ("reversed-view", r_rev, flat), ("fortran-order", r_for, ref), ("scalar-with-array", r_bc, ref[3, :])):
+        if np.shape(got) != np.shape(want) or not np.array_equal(got, want, equal_nan=True):
+            res.violation("C12/%s/elementwise-%s" % (name, nm), "%s: the call on a %s differs from the call on contiguous arrays" % (name, nm), {"kind": "scalar", "limiter": name})
     for i, j in itertools.product(range(v.size), repeat=2):
         res.evals += 1
         with np.errstate(all="ignore"):
